@@ -1,12 +1,32 @@
-"""C16 -- the v1 License classifier identifies every license of its own corpus.  T: NearestMatch on shipped texts and their upper/lower-cased, re-flowed and decorated variants must return the canonical name at or above the threshold; MultipleMatch never returns a confidence below the threshold (TraceV1 guards want / floor)."""
+"""C16 -- the v1 License classifier identifies every license of its own corpus.  M: V1Normalize (the normaliser pipeline as built is invariant under re-casing and comment decoration).  G: every small input through the real normalizeText.  T: NearestMatch on shipped texts and their upper/lower-cased, re-flowed and decorated variants must return the canonical name at or above the threshold; MultipleMatch never returns a confidence below the threshold (TraceV1 guards want / floor)."""
 import time
 from lib import vlib
 from checks.v2common import Acc
 from checks.v1common import trace_v1
 from checks.c15 import run_lic
+import os
+from lib.vlib import tlc, tlc_require_ok, go_overlay_test, read_ndjson, sub
+from checks.v2common import cfg_text
 PID = "C16"
 def run():
     t0 = time.time(); v = vlib.Verdict(PID); acc = Acc(); th = vlib.TIER == "thorough"
+    # M: normaliser pipeline as built -- invariant under re-casing and decoration.  G: every small input through normalizeText
+    r = tlc_require_ok(tlc("V1NormalizeMC", "V1NormalizeMC.cfg", timeout=1800, files={"V1NormalizeMC.cfg": cfg_text("V1NormalizeMC.cfg", MaxLen=4 if th else 3)}), "V1NormalizeMC")
+    acc.add_tlc(r, "V1NormalizeMC.cfg")
+    gen = tlc("V1NormalizeMC", "V1NormalizeGen.cfg", timeout=1800, files={"V1NormalizeGen.cfg": cfg_text("V1NormalizeGen.cfg", MaxLen=5 if th else 4)})
+    tlc_require_ok(gen, "V1NormalizeGen"); acc.add_tlc(gen, "V1NormalizeGen.cfg")
+    out = os.path.join(sub("out"), "norm.ndjson")
+    rc, txt, _ = go_overlay_test(".", ["common/util_test.go", "root/norm_driver_test.go"], "^TestVerifNormReplay$", env={"VERIF_IN": gen.outpath, "VERIF_OUT": out}, timeout=1800,
+                                 abs_extra={os.path.join(vlib.REPO, "classifier_test.go"): os.path.join(vlib.OVERLAY, "root/stub_test.go")})
+    rr = read_ndjson(out)
+    summ = [x for x in rr if x.get("kind") == "summary"]
+    if vlib.build_failed(txt) or not summ or summ[0]["vectors"] == 0:
+        raise vlib.Inconclusive("normaliser replay driver failed:\n" + txt[-3000:])
+    acc.evaluations += summ[0]["vectors"]; acc.extra["normalizer_replay"] = {k: summ[0][k] for k in ("vectors", "nontrivial", "mismatches")}
+    acc.samples += [{"vector": x} for x in (summ[0].get("samples") or [])[:1]]
+    for x in rr:
+        if x.get("kind") == "mismatch":
+            v.fail("normalizer-replay", x)
     env = {"VERIF_FILES": "178" if th else "40", "VERIF_VARIANTS": "upper,lower,reflow,decorated,oneline" if th else "upper,reflow,decorated,oneline"}
     recs, rc, txt = run_lic("TestVerifC16", env, timeout=7000)
     for r in recs:
